@@ -116,7 +116,38 @@ func runC07H2(c *Ctx, ruleB1, ruleH string) {
 		c.Unresolved(ruleH, "frame re-read loop in readMetaFrame")
 	}
 	// H3 all-or-nothing in ReadFrame
-	drains := callsIn(rf, false, func(cc *ssa.CallCommon) bool { return cc.IsInvoke() && cc.Method.Name() == "Drain" })
+	allDrains := callsIn(rf, false, func(cc *ssa.CallCommon) bool { return cc.IsInvoke() && cc.Method.Name() == "Drain" })
+	// round 16: a Drain from which no successful return can be reached consumes a frame that is being refused (the
+	// repair C08.B11 asks for). It is not "the" drain; it must not be followed by another Drain, nor by a return that
+	// says "need more data" or success.
+	var drains []CallSite
+	for _, dcs := range allDrains {
+		d := dcs.Instr
+		succ := existsPath(rf, d, func(in ssa.Instruction) bool {
+			ret, ok := in.(*ssa.Return)
+			return ok && isReturn(in) && isNilConst(unspill(ret, len(ret.Results)-1))
+		}, nil)
+		if succ != nil {
+			drains = append(drains, dcs)
+			continue
+		}
+		bad := existsPath(rf, d, func(in ssa.Instruction) bool {
+			if ci, isC := in.(ssa.CallInstruction); isC && in != ssa.Instruction(d) && ci.Common().IsInvoke() && ci.Common().Method.Name() == "Drain" {
+				return true
+			}
+			ret, ok := in.(*ssa.Return)
+			if !ok || !isReturn(in) {
+				return false
+			}
+			if u, isU := unspill(ret, len(ret.Results)-1).(*ssa.UnOp); isU {
+				if g, isG := u.X.(*ssa.Global); isG && g.Name() == "ErrAGAIN" {
+					return true
+				}
+			}
+			return false
+		}, nil)
+		c.Check(ruleH, funcKey(rf)+":refusing-drain-ends-the-read", d.Pos(), bad == nil, "a Drain on a refusing path is followed by an error return only", "ReadFrame drains on a path that can still answer need-more-data or drain again: bytes would be consumed although the frame is read again later")
+	}
 	if len(drains) != 1 {
 		c.Fail(ruleH, funcKey(rf)+":single-drain", rf.Pos(), fmt.Sprintf("expected exactly one Drain in ReadFrame, found %d", len(drains)))
 	} else {
